@@ -173,6 +173,8 @@ type Sim struct {
 	// ABA detector state
 	vers map[uintptr]uint64
 	ABAs []ABAEvent
+	abaWatch map[uintptr]string
+	OnABA    func(addr uintptr) string // names the word an ABA event happened on ("" = not a watched word)
 
 	leaked   int
 	timers   timerHeap
